@@ -403,7 +403,7 @@ def equal_shapes(a: Shape, b: Shape):
     if a.kind == 'defaultdict' and not (a.meta is b.meta or a.meta == b.meta):
         return False
     if _dictish(a.kind):
-        if len(a.entries) != len(b.entries) or not all(x == y for x, y in zip(a.entries, b.entries)):
+        if len(a.entries) != len(b.entries) or not all(x is y or x == y for x, y in zip(a.entries, b.entries)):
             return False
     if a.kind == 'custom':
         if a.reg is not b.reg or not (a.meta == b.meta):
